@@ -15,6 +15,7 @@ import (
 	"net"
 	"net/netip"
 	"sort"
+	"time"
 
 	"github.com/scionproto/scion/control/ifstate"
 	"github.com/scionproto/scion/pkg/addr"
@@ -98,6 +99,10 @@ type World struct {
 	Knobs    Knobs
 	// consBeta: accumulator value used at construction time, per hop field (see consKey)
 	consBeta map[string]uint16
+	// SegJitter: segment timestamps are spread over [ts-SegJitter, ts].
+	SegJitter time.Duration
+	// OnHop is called after every router traversal, at its simulated instant.
+	OnHop func(rec *HopRec)
 }
 
 // Knobs are per-run configuration choices.
@@ -107,6 +112,7 @@ type Knobs struct {
 	ReuseLocal                                      bool
 	RcvBuf, SndBuf                                  int
 	Batch                                           int
+	RandomMaxExp                                    bool // per-AS maximum hop expiry drawn from 0..255
 	DirectConfigOrder                               bool // configure through direct Connector calls in a drawn order (C11)
 	RouterPortOverride                              bool
 }
@@ -154,6 +160,9 @@ func GenWorld(r *core.Run, k Knobs) *World {
 			a.Master = r.Tape.Bytes("master", 16+r.Choice("masterlen", 3)*8)
 			a.RefKey = refmodel.DeriveHopKey(a.Master)
 			a.MaxExp = 63
+			if k.RandomMaxExp {
+				a.MaxExp = uint8(r.Choice("maxexp", 256))
+			}
 			w.ASes = append(w.ASes, a)
 			w.byIA[a.IA] = a
 		}
